@@ -20,7 +20,7 @@ GEN_SALT = "otel2puml-verif-gen-v1"
 
 class Gen:
     def __init__(self, rng, max_depth=3, allow_loops=True, allow_kill=True,
-                 max_events=14, p_loop=0.3):
+                 max_events=14, p_loop=0.3, loop_in_break=False):
         self.rng = rng
         self.n = 0
         self.max_depth = max_depth
@@ -28,6 +28,7 @@ class Gen:
         self.allow_kill = allow_kill
         self.max_events = max_events
         self.p_loop = p_loop
+        self.loop_in_break = loop_in_break
 
     def ev(self):
         self.n += 1
@@ -106,7 +107,15 @@ class Gen:
         nbreak = 1 if nb == 2 else r.choice([1, 2])
         for i in range(nb):
             if i < nbreak:
-                if loop_nested:
+                if self.loop_in_break and r.random() < 0.5:
+                    # extension (genx only): the break branch contains a loop
+                    br = [self.ev(),
+                          ["loop", [self.ev()] + (
+                              [self.ev()] if r.random() < 0.5 else [])]]
+                    if r.random() < 0.5:
+                        br.append(self.ev())
+                    br.append(["break"])
+                elif loop_nested:
                     br = [self.ev(), ["break"]]
                 else:
                     br = ([self.ev()]
@@ -140,6 +149,28 @@ def gen_def(i: int):
     rng = random.Random(seed)
     g = Gen(rng, **gen_params(i))
     return g.seq(0, False, False, top=True)
+
+
+def genx_def(i: int):
+    """Extension family used by C05/C07 only (C05 quantifies over "jobs with
+    several start events and loops that end in a fork"): like gen(i) but the
+    definition may start with a fork (several start events) and a break
+    branch may contain a loop."""
+    seed = int.from_bytes(
+        hashlib.sha256(f"{GEN_SALT}|defx|{i}".encode()).digest()[:8], "big"
+    )
+    rng = random.Random(seed)
+    pr = gen_params(i + 10**6)
+    pr["allow_loops"] = True
+    g = Gen(rng, loop_in_break=True, **pr)
+    body = g.seq(0, False, False, top=True)
+    if rng.random() < 0.5:
+        # several start events: the first item is a fork of plain branches
+        op = rng.choice(["and", "or", "xor"])
+        brs = [[g.ev()] + ([g.ev()] if rng.random() < 0.4 else [])
+               for _ in range(rng.choice([2, 2, 3]))]
+        body = [[op, brs]] + body
+    return body
 
 
 # ---------------------------------------------------------------------------
@@ -242,6 +273,8 @@ def load_workload(wid: str):
         return fam_def(int(n), int(i))
     if kind == "gen":
         return gen_def(int(rest))
+    if kind == "genx":
+        return genx_def(int(rest))
     if kind == "corpus":
         path = os.path.join(REPO, "end-to-end-pumls", rest)
         return puml_sem.parse(open(path).read())[1]
